@@ -504,6 +504,16 @@ func oracleC06(f *sessionFam, w *World, res *Result) []Violation {
 			// session (C12) before it could be announced, and a session that is already closed is not announced
 			continue
 		}
+		if len(conns) == 0 {
+			// the client hung up (or its connection failed) while the server was still inside the handshake - on a
+			// stream transport it has the open packet before the handler returns: a session that is lost while it is
+			// being set up is not announced
+			if gone := w.evs(a, "c-gone"); len(gone) > 0 {
+				if ret := w.evs(a, "http-ret"); len(ret) > 0 && gone[0].Seq < ret[0].Seq {
+					continue
+				}
+			}
+		}
 		if len(conns) != 1 {
 			l.add("one-connection-event", "", fmt.Sprintf("%s [%s]: admitted handshake produced %d connection events", a, ctx, len(conns)))
 			continue
